@@ -98,11 +98,29 @@ func runC01(c *Ctx) {
 	U := sc.U()
 	// R1
 	counts := map[string]int{}
-	qText, _ := sc.armQuery("Text", U)
+	extraT := []*pa.F{U}
+	for _, w := range sc.S.Writes {
+		if w.RawWhen != nil {
+			extraT = append(extraT, w.RawWhen)
+		}
+	}
+	qText, _ := sc.armQuery("Text", extraT...)
 	for i, w := range sc.S.Writes {
 		key := writeKey(sc.S, i)
 		counts[w.Arm+":"+w.Payload]++
 		switch w.Payload {
+		case "Mixed":
+			counts[w.Arm+":TokenString"]++
+			if w.Arm != "Text" || qText == nil {
+				R.Fail("C01.R1", key, writeDescr(w), sc.pos(w.Call), "raw token.Data written outside the Text arm")
+				continue
+			}
+			st := qText.StateAt(w.Call)
+			ok, cex := true, ""
+			if st != nil {
+				ok, cex = qText.Holds(st, pa.Implies(w.RawWhen, U))
+			}
+			R.Check(ok, "C01.R1", key, writeDescr(w), sc.pos(w.Call), "token.String(), or raw data only under allowUnsafe", "unescaped token.Data can reach the output without AllowUnsafe: ["+cex+"]")
 		case "TokenString", "Space":
 			if w.Arm == "" || w.Arm == "shared" {
 				R.Fail("C01.R1", key, writeDescr(w), sc.pos(w.Call), "write outside the token-type arms")
